@@ -529,3 +529,79 @@ Proof. intros M Q Hh. destruct (mi_heal _ _ M d0 Hh) as (s0 & ord & s1 & evs & I
     specialize (H p Hp Hloc Hnot). apply ipfs_has_eq in H. rewrite H. cbn. now rewrite N.eqb_refl.
   - destruct (memN c (sp_unt x)) eqn:Mu; auto. apply memN_in in Mu.
     rewrite (recover_heals_u s0 ord s1 evs c I0 L0 Q0 St Fo Q (Hun c Mu)). reflexivity. Qed.
+
+(* ---------- code 11 ---------- *)
+Definition ev_bounded (n : N) (e : event) : Prop :=
+  match e with ETrack p => In (pcid p) (nrange n) | EUntrack c => In c (nrange n) | ERecover c => In c (nrange n) | _ => True end.
+
+Lemma step_snd s e : snd (step s e) = snd (step_raw s e).
+Proof. unfold step. destruct (step_raw s e). reflexivity. Qed.
+Lemma step_fst s e : fst (step s e) = dispatch (fst (step_raw s e)).
+Proof. unfold step. destruct (step_raw s e). reflexivity. Qed.
+
+Lemma dispatch_entry s c o : Inv s -> aget c (table s) = Some o ->
+  exists o', aget c (table (dispatch s)) = Some o' /\ otyp o' = otyp o /\ (oph o' = oph o \/ (oph o = PQueued /\ oph o' = PInProgress)).
+Proof. intros I Ho. pose proof (dispatch_frame s c I) as F. unfold opframe in F. rewrite Ho in F.
+  destruct (aget c (table (dispatch s))) as [o'|]; [|contradiction]. exists o'. destruct F as (_ & A & _ & B). auto. Qed.
+
+Lemma track_remote_op s p : Inv s -> pmeta p = false -> premote p = true ->
+  snd (step s (ETrack p)) = ROk /\
+  exists o, aget (pcid p) (table (fst (step s (ETrack p)))) = Some o /\ otyp o = ORemote /\ oph o = PInProgress.
+Proof. intros I Hm Hr. rewrite step_snd, step_fst. cbn [step_raw]. unfold track. rewrite Hm, Hr.
+  set (s0 := set_last _ _). assert (I0 : Inv s0) by (apply (inv_ext s); auto).
+  pose proof (track_inv s p I) as It. unfold track in It. rewrite Hm, Hr in It. fold s0 in It.
+  destruct (track_new s0 p ORemote PInProgress) as [[s1 i]|] eqn:Htn; cbn [fst snd] in *; (split; [reflexivity|]).
+  - destruct (track_new_some _ _ _ _ _ _ Htn) as (_ & _ & Ht & _).
+    set (s2 := set_calls s1 _) in *. assert (H2 : aget (pcid p) (table s2) = Some (mk_op (next s0) ORemote PInProgress p)) by (cbn; rewrite Ht; apply aget_aput_same).
+    destruct (dispatch_effect s2) as (sp1 & su1 & D1). assert (H3 : exists o, aget (pcid p) (table (dispatch s2)) = Some o /\ otyp o = ORemote /\ oph o = PInProgress).
+    { rewrite (de_table _ _ _ _ D1), aget_mark, H2. cbn. eexists. split; [reflexivity|]. rewrite mark1_otyp, mark1_phase. cbn. split; auto. destruct (marked _ _ _); reflexivity. }
+    destruct H3 as (o & Ho & T & P). destruct (dispatch_entry _ _ _ It Ho) as (o' & Ho' & T' & P'). exists o'. split; auto. split; [congruence|].
+    destruct P' as [P'|[P' _]]; congruence.
+  - destruct (track_new_none _ _ _ _ Htn) as (o0 & Ho0 & T0 & L0).
+    assert (P0 : oph o0 = PInProgress).
+    { pose proof (inv_phase _ I0 _ _ Ho0) as Ph. unfold phase_ok in Ph. destruct (oph o0); try discriminate; auto.
+      destruct Ph as [[X _]|[X _]]; congruence. }
+    destruct (dispatch_entry _ _ _ I0 Ho0) as (o' & Ho' & T' & P'). exists o'. split; auto. split; [congruence|].
+    destruct P' as [P'|[P' _]]; congruence. Qed.
+
+Lemma recover_full s c : Inv s -> LInv false s -> snd (step s (ERecover c)) = RFull ->
+  is_error (status_of (fst (step s (ERecover c))) c) = true.
+Proof. intros I L. rewrite step_snd, step_fst. cbn [step_raw]. unfold recover. intros Hr.
+  pose proof (recover_with_inv s c (status_of s c) I) as I1.
+  assert (H : exists o, aget c (table (fst (recover_with s c (status_of s c)))) = Some o /\ oph o = PError /\ otyp o <> ORemote).
+  { unfold recover_with in *. destruct (status_of s c); try discriminate.
+    - destruct (aget c (pinset s)) as [p|] eqn:Hp; [|discriminate]. destruct (enqueue_result s p OPin I) as (o & Ho & T & R); [discriminate|].
+      rewrite Hr in R. rewrite (li_keyed _ _ L c p Hp) in Ho. exists o. split; auto. split; [apply R|congruence].
+    - destruct (enqueue_result s (pincid c) OUnpin I) as (o & Ho & T & R); [discriminate|]. rewrite Hr in R. exists o. split; auto. split; [apply R|congruence].
+    - destruct (aget c (pinset s)) as [p|] eqn:Hp; [|discriminate]. destruct (enqueue_result s p OPin I) as (o & Ho & T & R); [discriminate|].
+      rewrite Hr in R. rewrite (li_keyed _ _ L c p Hp) in Ho. exists o. split; auto. split; [apply R|congruence]. }
+  destruct H as (o & Ho & P & T). destruct (dispatch_entry _ _ _ I1 Ho) as (o' & Ho' & T' & P').
+  rewrite (status_of_op _ _ _ Ho'). unfold op_status. destruct P' as [P'|[P' _]]; [|congruence]. rewrite P', P, T'. destruct (otyp o); try reflexivity. congruence. Qed.
+
+Lemma code11_ok n fs s e : Inv s -> LInv false s -> ev_bounded n e ->
+  inst_ok e (model_obs n (fst (step s e)) (snd (step s e)) fs) = true.
+Proof. intros I L Hb. pose proof (step_inv s e I) as I'. unfold inst_ok.
+  assert (Hret : o_ret (model_obs n (fst (step s e)) (snd (step s e)) fs) = ret_code (snd (step s e))) by reflexivity.
+  destruct e as [p|c|c|ord|c f|c m]; cbn [ev_bounded] in Hb.
+  - destruct (pmeta p) eqn:Hm.
+    + rewrite Hret, step_snd. cbn [step_raw]. unfold track. now rewrite Hm.
+    + rewrite (o_st_model _ _ _ _ _ Hb). destruct (premote p) eqn:Hr.
+      * destruct (track_remote_op s p I Hm Hr) as [R (o & Ho & T & P)]. rewrite Hret, R. cbn [ret_code N.eqb andb].
+        unfold status_of. rewrite Ho. unfold op_status. rewrite T. cbn [st_bits N.eqb Pos.eqb andb].
+        pose proof (inv_phase _ I' _ _ Ho) as Ph. unfold phase_ok in Ph. rewrite P in Ph. destruct Ph as (cl & Hcl & Hid & Hc).
+        destruct (inv_calls _ I' _ Hcl) as (o2 & Ho2 & _ & _ & Hty). rewrite Hc, Ho in Ho2. injection Ho2 as <-. rewrite T in Hty.
+        apply existsb_exists. exists (call_obs (fst (step s (ETrack p))) cl). split; [unfold model_obs, o_inflight; now apply in_map|].
+        unfold call_obs. destruct (ckd cl); cbn in Hty; try discriminate. now rewrite Hc, !N.eqb_refl.
+      * destruct (instr_reported s (ETrack p) (pcid p) OPin I) as (o & Ho & T & R); [auto|]. rewrite Hret.
+        unfold status_of. rewrite Ho. unfold op_status. rewrite T. destruct (snd (step s (ETrack p))); cbn [ret_code N.eqb Pos.eqb].
+        -- destruct (oph o); try discriminate; reflexivity.
+        -- now rewrite R.
+  - rewrite (o_st_model _ _ _ _ _ Hb). destruct (instr_reported s (EUntrack c) c OUnpin I) as (o & Ho & T & R); [auto|]. rewrite Hret.
+    unfold status_of. rewrite Ho. unfold op_status. rewrite T. destruct (snd (step s (EUntrack c))); cbn [ret_code N.eqb Pos.eqb].
+    + destruct (oph o); try discriminate; reflexivity.
+    + now rewrite R.
+  - rewrite Hret. destruct (snd (step s (ERecover c))) eqn:R; cbn [ret_code N.eqb Pos.eqb]; [reflexivity|].
+    rewrite (o_st_model _ _ _ _ _ Hb), err_bits_status. now apply recover_full.
+  - rewrite Hret. destruct (snd (step s (ERecoverAll ord))); reflexivity.
+  - rewrite Hret, step_snd. reflexivity.
+  - rewrite Hret, step_snd. reflexivity. Qed.
